@@ -3,8 +3,16 @@ package check
 
 import (
 	"luahelper-lsp/langserver/check/common"
+	"luahelper-lsp/langserver/pathpre"
 	"strings"
 )
+
+func pathpreInit() {
+	pathpre.InitialRootURIAndPath("file:///w", "/w")
+	dm := common.GConfig.GetDirManager()
+	dm.SetVSRootDir("/w")
+	dm.InitMainDir()
+}
 
 // C12-b: the same agreement at identifier positions written with the explicit global prefix (`_G.x`),
 // with and without a same-named local / parameter / loop variable in scope (names over {a,b}: equal
@@ -250,5 +258,127 @@ func c12member(p *AllProject, file string, src []byte, line, col int, name strin
 		if !strings.Contains(label, name) {
 			verifViolation("", "hover label does not contain the member under the cursor")
 		}
+	}
+}
+
+// C12-d: the same agreement across files: a module table returned by its file and used through
+// `local m = require("mod")` with dot and colon calls; also a global table with methods defined in
+// another file. Query positions: the member names at the call sites and at their definitions.
+type c12xf struct {
+	files []string
+	srcs  []string
+	// query positions: file index, 1-based line, 0-based column of a one-letter-suffixed member name, its length
+	pos [][4]int
+}
+
+var c12xTemplates = []c12xf{
+	{[]string{"mod.lua", "user.lua"},
+		[]string{"local M = {}\nfunction M:ba\x01(x) return x end\nfunction M.fo\x02(x) return x end\nM.cn\x03 = 1\nreturn M\n",
+			"local m = require(\"mod\")\nm:ba\x01(2)\nm.fo\x02(1)\nq = m.cn\x03\n"},
+		[][4]int{{1, 2, 2, 3}, {1, 3, 2, 3}, {1, 4, 6, 3}, {0, 2, 11, 3}, {0, 3, 11, 3}, {0, 4, 2, 3}}},
+	{[]string{"glob.lua", "use.lua"},
+		[]string{"GT = {}\nfunction GT:ba\x01(x) return x end\nfunction GT.fo\x02(x) return x end\n",
+			"GT:ba\x01(2)\nGT.fo\x02(1)\nlocal k = GT\nk:ba\x01(3)\n"},
+		[][4]int{{1, 1, 3, 3}, {1, 2, 3, 3}, {0, 2, 12, 3}, {0, 3, 12, 3}}},
+}
+
+func VerifRun_C12d() {
+	ti := verifConcretize(verifRange("template", 0, len(c12xTemplates)-1))
+	t := c12xTemplates[ti]
+	var names [10]byte
+	var have [10]bool
+	files := make([]string, len(t.files))
+	srcs := make([][]byte, len(t.files))
+	for k := range t.files {
+		files[k] = "/w/" + t.files[k]
+		b := []byte(t.srcs[k])
+		for i, c := range b {
+			if c >= 1 && c <= 9 {
+				if !have[c] {
+					names[c] = verifByteIn("n"+string([]byte{'0' + c}), "ab")
+					have[c] = true
+				}
+				b[i] = names[c]
+			}
+		}
+		srcs[k] = b
+	}
+	pathpreInit()
+	p, _ := vpProject(files, srcs)
+	for _, q := range t.pos {
+		for end := 0; end <= 1; end++ {
+			col := q[2]
+			if end == 1 {
+				col += q[3]
+			}
+			c12xfile(p, files, srcs, q[0], q[1], col, q[2], q[3])
+		}
+	}
+	verifReach("done")
+}
+
+func c12xfile(p *AllProject, files []string, srcs [][]byte, fi, line, col, startCol, n int) {
+	src := srcs[fi]
+	vs, ok := c12query(src, line, col)
+	if !ok {
+		verifViolation("", "a member name position is not accepted as a query")
+		return
+	}
+	vs1, vs2, vs3 := vs, vs, vs
+	def := p.FindVarDefineInfo(files[fi], &vs1)
+	refs := p.FindReferences(files[fi], &vs2, common.CRSReference)
+	high := p.FindReferences(files[fi], &vs3, common.CRSHighlight)
+	verifReach("position")
+	srcOf := func(f string) []byte {
+		for k := range files {
+			if files[k] == f {
+				return srcs[k]
+			}
+		}
+		return nil
+	}
+	for _, rf := range refs {
+		s := srcOf(rf.StrFile)
+		if s == nil {
+			continue
+		}
+		q, okq := c12query(s, rf.Loc.StartLine, rf.Loc.StartColumn)
+		if !okq {
+			verifViolation("", "a location returned by references is not an identifier position")
+			continue
+		}
+		dq := p.FindVarDefineInfo(rf.StrFile, &q)
+		if !c12sameDefs(dq, def) {
+			verifViolation("", "a location returned by references of a cross-file member resolves to a different definition than the query position")
+			break
+		}
+	}
+	if len(def) == 1 {
+		verifReach("defined")
+		if s := srcOf(def[0].StrFile); s != nil {
+			q, okq := c12query(s, def[0].Loc.StartLine, def[0].Loc.StartColumn)
+			if okq {
+				rd := p.FindReferences(def[0].StrFile, &q, common.CRSReference)
+				if !c12has(rd, files[fi], line, startCol, startCol+n) {
+					verifViolation("", "a cross-file member position is not among the references of its own definition")
+				}
+			}
+		}
+	}
+	same := true
+	cnt := 0
+	for _, rf := range refs {
+		if rf.StrFile == files[fi] {
+			cnt++
+			if !c12has(high, files[fi], rf.Loc.StartLine, rf.Loc.StartColumn, rf.Loc.EndColumn) {
+				same = false
+			}
+		}
+	}
+	if cnt != len(high) {
+		same = false
+	}
+	if !same {
+		verifViolation("", "document highlight of a cross-file member differs from its references in the same file")
 	}
 }
